@@ -37,7 +37,10 @@ fn run_case(_kind: &str, idx: u64, rng: &mut Rng, mon: &mut Mon, _tier: Tier) {
     // a quarter of the robots carries limits on J6 only (asymmetric about zero, so that the centre of the
     // range is not zero); every J6 value used below lies inside, so no answer may be filtered out
     let limited = rng.bool(0.25);
-    let lim = (-rng.range(0.6, 1.5), rng.range(1.6, 3.0));
+    // (a third of those ranges wraps the +-180 degree seam instead: from ~ +2.2, to ~ -2.2, centre pi; the J6 values
+    // used then lie inside it on either side of the seam, and plain inverse - J6 = 0, outside - is not asked)
+    let seam_range = limited && rng.bool(0.33);
+    let lim = if seam_range { (rng.range(1.8, 2.6), -rng.range(1.8, 2.6)) } else { (-rng.range(0.6, 1.5), rng.range(1.6, 3.0)) };
     let bare: Arc<dyn rs_opw_kinematics::kinematic_traits::Kinematics> = if limited {
         let (mut from, mut to) = ([0.0; 6], [0.0; 6]);
         from[5] = lim.0;
@@ -110,8 +113,8 @@ fn run_case(_kind: &str, idx: u64, rng: &mut Rng, mon: &mut Mon, _tier: Tier) {
     let pose = fr_to_iso(&target);
     let j6 = *rng.pick(&[0.0, PI, -PI, 1e3, rng.clone().range(-2.0 * PI, 2.0 * PI), q[5]]);
     let _ = rng.next_u64();
-    let j6 = if limited { rng.range(-0.5, 0.5) } else { j6 };
-    let sentinel = rng.bool(if limited { 0.4 } else { 0.1 });
+    let j6 = if seam_range { rng.sign() * (PI - rng.range(0.05, 0.4)) } else if limited { rng.range(-0.5, 0.5) } else { j6 };
+    let sentinel = !seam_range && rng.bool(if limited { 0.4 } else { 0.1 });
     let mut prev = q;
     for j in 0..5 {
         prev[j] += rng.range(-0.3, 0.3);
@@ -145,7 +148,7 @@ fn run_case(_kind: &str, idx: u64, rng: &mut Rng, mon: &mut Mon, _tier: Tier) {
     mon.count(&format!("stack.{}", sname));
     mon.count(if rp.dof == 5 { "robots_dof5" } else { "robots_dof6" });
 
-    let entries: &[Entry] = if rp.dof == 5 { &ENTRIES } else { &[Entry::FiveDof, Entry::Continuing5] };
+    let entries: &[Entry] = if rp.dof == 5 && !seam_range { &ENTRIES } else if rp.dof == 5 { &[Entry::Continuing, Entry::FiveDof, Entry::Continuing5] } else { &[Entry::FiveDof, Entry::Continuing5] };
     for &e in entries {
         let detail = |what: &str, extra: serde_json::Value| json!({"robot": robot_json(&robot), "stack": stack_json(&layers), "entry": e.name(), "q": jf(&q), "prev": jf(&prev), "j6": j6, "j6_limits": if limited { json!([lim.0, lim.1]) } else { json!(null) }, "clause": what, "extra": extra});
         if rp.dof == 5 && e == Entry::Inverse {
